@@ -2,7 +2,7 @@
 of set_resample_ratio on the four asynchronous resamplers, decided on the MIR
 of the setters themselves. Second, independent encoding of what the Kani
 harnesses c12_abs_* decide; the two engines must agree."""
-import re, time, struct
+import re, time, struct, os
 import z3
 from .interp import Interp, FPDom, State, Ref, Struct, Variant, Unmodelled, UB
 
@@ -30,7 +30,8 @@ def fbits(v):
     return struct.unpack("<d", struct.pack("<Q", bits))[0], hex(bits)
 
 
-def check(prog, tier="quick", repo="/repo"):
+def check(prog, tier="quick", repo=None):
+    repo = repo or os.environ.get("RV_REPO", "/repo")
     from concurrent.futures import ProcessPoolExecutor
     obs, models = [], set()
     with ProcessPoolExecutor(max_workers=4) as ex:
